@@ -875,8 +875,8 @@ MUTANTS.append(dict(prop="C02", name="repair:F29-close-wakes-waiters", patch="se
 MUTANTS.append(dict(prop="C11", name="fixed:F28-chunk-size-counts-items-of-wide-buffers", patch="selftest/patches/f28_fix.diff", reverse=True, rule="C11-R2", benign=False))
 # ---- C10-R8 / F27 (fixed in /repo): the reverse of the fix must fire
 MUTANTS.append(dict(prop="C10", name="fixed:F27-connect-line-injection-through-url-host", patch="selftest/patches/f27_fix.diff", reverse=True, rule="C10-R8", benign=False))
-# ---- C09-R13 / F26: a scratch variant that stores the flag only after _tunnel() returned must be silent
-MUTANTS.append(dict(prop="C09", name="repair:F26-connected-to-proxy-only-after-tunnel", patch="selftest/patches/f26_repair.diff", rule=None, benign=True))
+# ---- C09-R13 / F26 (fixed in /repo): the reverse of the fix must fire
+MUTANTS.append(dict(prop="C09", name="fixed:F26-connected-to-proxy-before-tunnel", patch="selftest/patches/f26_fix.diff", reverse=True, rule="C09-R13", benign=False))
 # ---- C12-R11 / F25: a scratch variant in which read()/read1() refuse to take over from the chunk reader must be silent
 MUTANTS.append(dict(prop="C12", name="repair:F25-read-refuses-after-chunk-reader-started", patch="selftest/patches/f25_guard.diff", rule=None, benign=True))
 # ---- C12-R6 / F24 (fixed in /repo): the reverse of the fix must fire
